@@ -325,6 +325,11 @@ pub fn judge_graph(spec: &GraphSpec, keys: (u64, u64), threaded: Option<(u64, u6
         res.add("probe_builder_created_100_or_more_hash_sets", 1);
     }
 
+    res.xdigest = Some(match &a {
+        B::Ok(t) => t.digest(),
+        B::Err(_) => 0xe44,
+        B::Panicked(_) => 0x9a1c,
+    });
     // no panic
     for x in [&a, &b, &a2] {
         if let B::Panicked(msg) = x {
@@ -434,6 +439,13 @@ impl Property for C05 {
             400_000
         } else {
             160_000
+        }
+    }
+    fn xproc_runs(&self, thorough: bool) -> u64 {
+        if thorough {
+            100_000
+        } else {
+            8_000
         }
     }
     fn run_one(&self, seed: u64, index: u64, thorough: bool) -> OneResult {
